@@ -89,4 +89,26 @@ void use(momo::HashMultiMap<int, int>& s)
 	s.AddCrt(k, vc); s.AddCrt(2, vc);
 	s.Add({ std::pair<int, int>(1, 1) });
 }
+#elif defined(INST_DATATABLE)
+#include "momo/DataTable.h"
+// implicit instantiation only (not every member of DataTable is valid for every column list): the members used below get bodies
+static const momo::DataColumn<int> c1("c1");
+static const momo::DataColumn<int> c2("c2");
+typedef momo::DataColumnList<momo::DataColumnTraits<>, momo::MemManagerDefault, momo::DataItemTraits<momo::MemManagerDefault>, momo::DataSettings<true>> DCL;
+typedef momo::DataTable<DCL> DT;
+void use(DT& t, DT& o)
+{
+	t.AddUniqueHashIndex(c1); t.AddMultiHashIndex(c2); t.RemoveUniqueHashIndexes(); t.RemoveMultiHashIndexes();
+	t.AddRow(c1 = 1, c2 = 2); t.TryAddRow(c1 = 1); t.InsertRow(0, c1 = 1); t.TryInsertRow(0, c1 = 1);
+	t.Add(t.NewRow(c1 = 1)); t.TryAdd(t.NewRow()); t.Insert(0, t.NewRow()); t.TryInsert(0, t.NewRow());
+	t.Update(size_t(0), t.NewRow()); t.TryUpdate(size_t(0), t.NewRow());
+	t.Update(t[0], c1, 5); t.TryUpdate(t[0], c1, 5);
+	{ const int five = 5; t.Update(t[0], c1, five); t.TryUpdate(t[0], c1, five); }
+	auto s = t.Select(c1 == 1);
+	t.Assign(s.GetBegin(), s.GetEnd()); t.Remove(s.GetBegin(), s.GetEnd());
+	t.Remove([] (DT::ConstRowReference) { return true; });
+	t.Remove(t[0]); t.Remove(size_t(0)); { auto r = t.Extract(t[0]); } { auto r = t.Extract(size_t(0)); }
+	t.Clear(); t.Reserve(5); t.Swap(o); (void)t.GetMemManager();
+	(void)t.NewRow(t[0]);
+}
 #endif
